@@ -96,14 +96,13 @@ static void nPredicates(const Sys& S, const std::string& key, const std::vector<
     vh::P("qdot_is_N", key + ".qdot_is_N", vecDiff(qd, Nvu), 1e-13);
 }
 
-static void runCase(const Case& c) {
+// everything observable about one body on Ground at the state's CURRENT (q,u) (already realized to Velocity), as one
+// record `fn` = "mob" (built-in) or "mobfb" (MobilizedBody::FunctionBased mirror; the model is the built-in type)
+static void observe(std::unique_ptr<Sys>& S, const Case& c, const std::string& fn, const std::string& extraTag) {
     std::vector<Case> cs(1, c);
-    std::unique_ptr<Sys> S = build(cs, c.euler);
-    setQU(*S, cs);
-    S->system.realize(S->state, Stage::Velocity);
     const State& s = S->state; const MobilizedBody& m = S->mobods[0]; const SimbodyMatterSubsystem& M = S->matter;
     const int nq = c.nq(), nu = c.nu();
-    putCase("mob", c);
+    putCase(fn, c);
     outX("X_FM", m.getMobilizerTransform(s)); outSV("V_FM", m.getMobilizerVelocity(s));
     { vh::Line l = vh::O("H_FM"); for (int j = 0; j < nu; ++j) { SpatialVec h = m.getH_FMCol(s, MobilizerUIndex(j)); l.v(h[0], 3).v(h[1], 3); } l.emit(); }
     { vh::Line l = vh::O("H"); for (int j = 0; j < nu; ++j) { SpatialVec h = m.getHCol(s, MobilizerUIndex(j)); l.v(h[0], 3).v(h[1], 3); } l.emit(); }
@@ -127,6 +126,7 @@ static void runCase(const Case& c) {
       vh::O("Vcor").v(V[0], 3).v(V[1], 3).v(A[0], 3).v(A[1], 3).emit(); }
     vh::D(c.tag());
     if (!c.optTag().empty()) vh::D(c.optTag());
+    if (!extraTag.empty()) vh::D(extraTag);
     // key = call site . input class.  LineOrientation / FreeLine in quaternion mode form their own classes
     // (reversedLine.quaternion: velocity vs pose;  line.quaternion: NDot), everything else is keyed by type.
     const bool line = (c.type == LINEORIENTATION || c.type == FREELINE) && !c.euler;
@@ -136,6 +136,75 @@ static void runCase(const Case& c) {
         fdPredicates(*S, std::vector<std::string>(1, key), cs, c.station);
         nPredicates(*S, key, std::vector<std::string>(1, key), vu, vq, udot, c.unitQuat || !usesQuat(c.type) || c.euler);
     }
+}
+
+static std::unique_ptr<Sys> buildOne(const Case& c, bool fb) {
+    std::vector<Case> cs(1, c);
+    BuildOpts o; o.gravity = true; o.g = Vec3(0.3, -9.8, 1.1);      // a force subsystem so that Acceleration can be realized
+    if (fb) o.functionBased.push_back(true);
+    return buildEx(cs, c.euler, o);
+}
+// fresh State per sample
+static void runCase(const Case& c, bool fb = false) {
+    std::unique_ptr<Sys> S = buildOne(c, fb);
+    std::vector<Case> cs(1, c);
+    setQU(*S, cs);
+    S->system.realize(S->state, Stage::Velocity);
+    observe(S, c, fb ? "mobfb" : "mob", fb ? std::string("fresh.functionBased.") + typeName[c.type] : "");
+}
+
+// ---- state-reuse stream: ONE State object is driven through a sequence of {change q, change u, realize to a stage}
+// and observed at the end; the model is evaluated at the CURRENT (q,u), so any cached quantity that survives a change
+// of q or u (stale H, HDot, X_FM, qdot, ...) shows up as a mismatch and in the finite-difference predicates.
+static void writeQ(Sys& S, const Case& c, int how) {      // three public ways of changing q
+    const MobilizedBody& m = S.mobods[0];
+    const int nq = m.getNumQ(S.state), q0 = m.getFirstQIndex(S.state);
+    if (how == 0) for (int k = 0; k < nq; ++k) m.setOneQ(S.state, k, c.q[k]);
+    else if (how == 1) { Vector& q = S.state.updQ(); for (int k = 0; k < nq; ++k) q[q0 + k] = c.q[k]; }
+    else { Vector q = S.state.getQ(); for (int k = 0; k < nq; ++k) q[q0 + k] = c.q[k]; S.state.setQ(q); }
+}
+static void writeU(Sys& S, const Case& c, int how) {
+    const MobilizedBody& m = S.mobods[0];
+    const int nu = m.getNumU(S.state), u0 = m.getFirstUIndex(S.state);
+    if (how == 0) for (int k = 0; k < nu; ++k) m.setOneU(S.state, k, c.u[k]);
+    else if (how == 1) { Vector& u = S.state.updU(); for (int k = 0; k < nu; ++k) u[u0 + k] = c.u[k]; }
+    else { Vector u = S.state.getU(); for (int k = 0; k < nu; ++k) u[u0 + k] = c.u[k]; S.state.setU(u); }
+}
+static const char* const orderName[5] = {"P_q_P_V", "V_u_V", "V_q_V", "A_q_P_A", "random"};
+static void runReuse(vh::Rng& g, const Case& c0, bool fb, int order) {
+    std::unique_ptr<Sys> S = buildOne(c0, fb);
+    Case c1 = c0;                                   // first configuration / speeds
+    std::vector<Case> cs(1, c1);
+    setQU(*S, cs);
+    Case c = c0; randomState(g, c);                 // second configuration / speeds (same type, options, frames)
+    c.station = c0.station;
+    const int how = g.below(3);
+    const System& sys = S->system;
+    switch (order) {
+      case 0: sys.realize(S->state, Stage::Position); writeQ(*S, c, how); writeU(*S, c, how);
+              sys.realize(S->state, Stage::Position); break;
+      case 1: sys.realize(S->state, Stage::Velocity); writeU(*S, c, how);
+              for (int k = 0; k < 7; ++k) c.q[k] = c1.q[k]; c.unitQuat = c1.unitQuat; break;          // q unchanged
+      case 2: sys.realize(S->state, Stage::Velocity); writeQ(*S, c, how);
+              for (int k = 0; k < 6; ++k) c.u[k] = c1.u[k]; break;                                    // u unchanged
+      case 3: sys.realize(S->state, Stage::Acceleration); writeQ(*S, c, how); writeU(*S, c, how);
+              sys.realize(S->state, Stage::Position); sys.realize(S->state, Stage::Acceleration); break;
+      default: {
+          sys.realize(S->state, Stage::Velocity);
+          Case cur = c1;
+          for (int step = 0; step < 6; ++step) {
+              int op = g.below(5);
+              if (op == 0) { Case t = c0; randomState(g, t); for (int k = 0; k < 7; ++k) cur.q[k] = t.q[k]; cur.unitQuat = t.unitQuat; writeQ(*S, cur, g.below(3)); }
+              else if (op == 1) { Case t = c0; randomState(g, t); for (int k = 0; k < 6; ++k) cur.u[k] = t.u[k]; writeU(*S, cur, g.below(3)); }
+              else sys.realize(S->state, op == 2 ? Stage::Position : op == 3 ? Stage::Velocity : Stage::Acceleration);
+          }
+          for (int k = 0; k < 7; ++k) c.q[k] = cur.q[k];
+          for (int k = 0; k < 6; ++k) c.u[k] = cur.u[k];
+          c.unitQuat = cur.unitQuat;
+      }
+    }
+    sys.realize(S->state, Stage::Velocity);
+    observe(S, c, fb ? "mobfb" : "mob", std::string("reuse.") + (fb ? "functionBased." : "") + typeName[c.type] + "." + orderName[order]);
 }
 
 static void runTree(const std::vector<Case>& cs, bool euler, const Vec3& station) {
@@ -191,6 +260,7 @@ static void replay() {
         std::istringstream is(buf); std::string k, fn; is >> k >> fn;
         if (k != "I") continue;
         if (fn == "mob") { Case c; if (getCase(is, c)) runCase(c); }
+        else if (fn == "mobfb") { Case c; if (getCase(is, c)) runCase(c, true); }
         else if (fn == "tree") {
             int n; is >> n; std::vector<Case> cs; bool ok = true, euler = false;
             for (int i = 0; i < n && ok; ++i) { Case c; std::vector<double> v; size_t kk; is >> c.parent; ok = getBody(is, c, v, kk); euler = c.euler; cs.push_back(c); }
@@ -206,6 +276,23 @@ int main(int argc, char** argv) {
     vh::Rng g(args.seed * 7919 + 3);
     long made = 0;
     const long nTrees = std::max<long>(1, args.n / 10);
+    // ---- state-reuse stream (about a fifth of the budget, never less than one full sweep): every type x the four
+    // named orders + a random order, alternating direction / option; FunctionBased mirrors (q-dependent cached H)
+    {
+        const int fbTypes[8] = {PIN, SLIDER, CYLINDER, PLANAR, UNIVERSAL, GIMBAL, BUSHING, TRANSLATION};
+        const long reps = std::max<long>(1, args.n / (5 * ((NTYPES - 1) * 5 + 8 * 5)));
+        for (long rep = 0; rep < reps; ++rep) {
+            for (int t = 0; t < NTYPES; ++t) { if (t == WELD) continue;
+                for (int order = 0; order < 5; ++order) {
+                    bool rev = (rep + t + order) & 1, euler = ((rep + t / 2 + order / 2) & 1);
+                    runReuse(g, randomCase(g, t, g.below(3), g.below(3), rev, euler), false, order); ++made; } }
+            for (int k = 0; k < 8; ++k)
+                for (int order = 0; order < 5; ++order) {
+                    runReuse(g, randomCase(g, fbTypes[k], g.below(3), g.below(3), (rep + k + order) & 1, false), true, order); ++made; }
+        }
+        // fresh-state FunctionBased mirrors as well
+        for (int k = 0; k < 8; ++k) { runCase(randomCase(g, fbTypes[k], g.below(3), g.below(3), k & 1, false), true); ++made; }
+    }
     for (int round = 0; made < args.n - nTrees; ++round)
         for (int t = 0; t < NTYPES && made < args.n - nTrees; ++t)
             for (int fp = 0; fp < 9 && made < args.n - nTrees; ++fp) {
